@@ -318,7 +318,7 @@ def conditions_to(root, target, kinds=("return", "continue", "break", "panic")):
     return resolve_named(conds, path)
 
 
-PURE_KINDS = ("Path", "Field", "MethodCall", "Call", "Macro", "Binary", "Unary", "Index", "Ref", "Lit", "Paren", "Cast", "Tuple", "Range")
+PURE_KINDS = ("Path", "Field", "MethodCall", "Call", "Macro", "Binary", "Unary", "Index", "Ref", "Lit", "Paren", "Cast", "Tuple", "Range", "Closure", "PType", "Array", "Block", "ExprStmt")
 
 
 def _pure(e):
@@ -411,6 +411,9 @@ def pure_let_env(path):
                         env.pop(k_, None)
                         env_free.pop(k_, None)
                 if s["k"] == "Local":
+                    if s["pat"]["k"] == "PType":
+                        s = dict(s)
+                        s["pat"] = s["pat"]["pat"]
                     bound = {x["name"] for x in walk(s["pat"]) if x["k"] == "PIdent"}
                     for b_ in bound:
                         env.pop(b_, None)
